@@ -964,3 +964,134 @@ Proof.
     apply sub_depth; [assumption|]. eapply sub_trans; [|exact HT]. eapply sub_trans; [|apply sub_itf_props].
     eapply sub_trans; [now apply (sub_signal_param "prop" x)|]. apply sub_concat. now apply in_map.
 Qed.
+
+(* ================= Part 4: the whole text through the package parser ================= *)
+Definition is_pkg_name (s : string) : bool :=
+  match s with EmptyString => false | String c r => is_alpha_ c && all_chars is_pkg_char r end.
+
+Lemma pkg_ident_ok p rest : is_pkg_name p = true ->
+  match rest with EmptyString => True | String c _ => is_pkg_char c = false end ->
+  fst (pkg_ident (String " " (p ++ rest))) = Ok (NTerm p) rest.
+Proof.
+  intros Hp Hr. destruct p as [|c r]; [discriminate|]. cbn in Hp. apply andb_prop in Hp as [Hc Ha].
+  unfold pkg_ident, token1. cbn [append skip_ws]. change (@is_ws " ") with true. cbn iota.
+  rewrite (alpha__not_ws c Hc), Hc. rewrite span_app_follow by assumption. reflexivity.
+Qed.
+
+(* the declarations the struct part of the text stands for *)
+Definition struct_items (E : env) (S : tset) : list (string * inode) :=
+  flat_map (fun e => match snd (snd e), lookup (fst e) E with
+                     | Some _, Some fs => [(struct_text (fst e) fs, NVal (struct_val (fst e) fs))]
+                     | _, _ => []
+                     end) S.
+Definition itf_items (P : list tobject) : list (string * inode) := map (fun o => (itf_text o, NVal (itf_val o))) P.
+
+Lemma struct_items_text E inames S : set_ok E inames S -> (forall k, In k inames -> lookup k E = None) ->
+  String.concat "" (map gen_struct S) = String.concat "" (map fst (struct_items E S)).
+Proof.
+  intros [HF _] Hd. induction HF as [|e S He HF IH]; [reflexivity|].
+  cbn [map struct_items flat_map]. rewrite sconcat_cons, map_app, sconcat_app. fold (struct_items E S). rewrite <- IH. f_equal.
+  destruct e as [k [sg blk]]. destruct He as [[Hi Heq]|(fs & Hl & Heq)]; cbn [fst snd] in *.
+  - inversion Heq; subst. reflexivity.
+  - inversion Heq; subst. rewrite Hl. cbn [map fst String.concat]. apply gen_struct_text.
+Qed.
+
+Lemma ideclaration_ws f s : ideclaration (itype f) (nl ++ s) = ideclaration (itype f) s.
+Proof. unfold ideclaration. apply por_ext. repeat constructor. Qed.
+
+Lemma decls_of_nodes_vals (vs : list ival) : Forall (fun v => is_sig_type (NVal v) = true) vs ->
+  decls_of_nodes (map (@NVal ival) vs) = Some vs.
+Proof.
+  induction 1 as [|v vs Hv HF IH]; [reflexivity|]. cbn [map decls_of_nodes]. rewrite Hv, IH. reflexivity.
+Qed.
+
+Definition decl_vals (E : env) (P : list tobject) (S : tset) : list ival :=
+  (map itf_val P ++ flat_map (fun e => match snd (snd e), lookup (fst e) E with
+                                        | Some _, Some fs => [struct_val (fst e) fs]
+                                        | _, _ => []
+                                        end) S)%list.
+
+Lemma decl_items_snd E P S : map snd (itf_items P ++ struct_items E S)%list = map (@NVal ival) (decl_vals E P S).
+Proof.
+  unfold decl_vals, itf_items, struct_items. rewrite !map_app, !map_map. f_equal.
+  induction S as [|e S IH]; [reflexivity|]. cbn [flat_map]. rewrite !map_app, IH. f_equal.
+  destruct (snd (snd e)); [|reflexivity]. destruct (lookup (fst e) E); reflexivity.
+Qed.
+
+Definition env_safe (E : env) : Prop := Forall (fun d => idl_safe (TStruct (fst d) (snd d)) = true) E.
+
+Theorem parse_package_ok E pkg P S : package_ok E P -> env_safe E -> is_pkg_name pkg = true ->
+  set_ok E (map to_name P) S ->
+  fst (parse_package (package_text pkg P S)) = Ok (NVal (VPkg pkg (decl_vals E P S))) nl.
+Proof.
+  intros [HP Hnd] HE Hpkg HS.
+  assert (Hdisj : forall k, In k (map to_name P) -> lookup k E = None).
+  { intros k Hk. apply in_map_iff in Hk as (o & <- & Ho). rewrite Forall_forall in HP. apply (HP o Ho). }
+  unfold parse_package. set (T := package_text pkg P S). set (f := Datatypes.S (String.length T)) in *.
+  assert (ET : T = "package " ++ pkg ++ nl ++ String.concat "" (map fst (itf_items P ++ struct_items E S)%list)).
+  { subst T. unfold package_text. rewrite (struct_items_text E _ S HS Hdisj), map_app, sconcat_app.
+    unfold itf_items. rewrite map_map. reflexivity. }
+  set (items := (itf_items P ++ struct_items E S)%list) in *.
+  (* every block is a substring of the text *)
+  assert (Hsub : forall t nd, In (t, nd) items -> sub t T).
+  { intros t nd Hin. rewrite ET. apply sub_l, sub_l, sub_l. apply sub_concat. change t with (fst (t, nd)). now apply in_map. }
+  assert (Hitems : forall t nd, In (t, nd) items -> forall rest, decl_rest rest ->
+            fst (ideclaration (itype f) (t ++ rest)) = Ok nd (nl ++ rest)).
+  { intros t nd Hin rest Hrest. pose proof (Hsub t nd Hin) as Hs. unfold items in Hin. apply in_app_or in Hin as [Hin|Hin].
+    - apply in_map_iff in Hin as (o & Eo & Ho). inversion Eo; subst t nd.
+      rewrite Forall_forall in HP. apply (itf_block E); [now apply HP| |now apply decl_rest_no_comment].
+      now apply (object_deep_sub E f o T); [apply HP| |].
+    - unfold struct_items in Hin. apply in_flat_map in Hin as (e & He & Hin).
+      destruct (snd (snd e)) as [blk|]; [|destruct Hin]. destruct (lookup (fst e) E) as [fs|] eqn:Hl; [|destruct Hin].
+      destruct Hin as [Ei|[]]. inversion Ei; subst t nd.
+      assert (Hsafe : idl_safe (TStruct (fst e) fs) = true).
+      { unfold env_safe in HE. rewrite Forall_forall in HE. apply (HE (fst e, fs)). now apply lookup_in. }
+      apply struct_block_parses; [assumption| |assumption].
+      apply Forall_forall. intros p Hp. cbn [idl_safe] in Hsafe. apply andb_prop in Hsafe as [_ Hfs].
+      rewrite forallb_forall in Hfs. specialize (Hfs p Hp). apply andb_prop in Hfs as [_ Hps].
+      apply sub_depth; [assumption|]. eapply sub_trans; [now apply (sub_struct_member (fst e) fs p)|exact Hs]. }
+  assert (Hshape : forall t nd, In (t, nd) items -> (exists x, t = String "s" x) \/ (exists x, t = String "i" x)).
+  { intros t nd Hin. unfold items in Hin. apply in_app_or in Hin as [Hin|Hin].
+    - apply in_map_iff in Hin as (o & Eo & _). inversion Eo. right. unfold itf_text. cbn [append]. eauto.
+    - unfold struct_items in Hin. apply in_flat_map in Hin as (e & _ & Hin).
+      destruct (snd (snd e)); [|destruct Hin]. destruct (lookup (fst e) E); [|destruct Hin].
+      destruct Hin as [Ei|[]]. inversion Ei. left. unfold struct_text. cbn [append]. eauto. }
+  assert (Hrest0 : decl_rest (String.concat "" (map fst items))).
+  { destruct items as [|[t nd] items']; [now left|]. cbn [map fst]. rewrite sconcat_cons.
+    destruct (Hshape t nd (or_introl eq_refl)) as [(x & ->)|(x & ->)]; cbn [append]; [right; left|right; right]; eauto. }
+  rewrite ET. unfold ipackage. rewrite pand_fst. cbn [append].
+  set (R := String.concat "" (map fst items)) in *.
+  (* the package line *)
+  rewrite (and_loop_cons_ok _ _ _ (NVal (VStr pkg)) (nl ++ R)).
+  2:{ unfold ipackage_name. rewrite pand_fst.
+      rewrite (and_loop_cons_ok _ [] _ (NVal (VStr pkg)) (nl ++ R)); [reflexivity|].
+      apply (maybe_ok (Some nodify_first) _ _ (NVal (VStr pkg))). rewrite pand_fst.
+      and_step ltac:(reflexivity).
+      and_step ltac:(apply pkg_ident_ok; [assumption|reflexivity]).
+      and_step ltac:(apply icomments_none; apply no_comment_nl; now apply decl_rest_no_comment).
+      reflexivity. }
+  (* the declarations *)
+  rewrite (and_loop_cons_ok _ [] _ (NVal (VDecls (decl_vals E P S))) nl).
+  - reflexivity.
+  - rewrite kleene_fst. replace (nl ++ R) with (nl ++ R ++ "") by (now rewrite sapp_nil_r). subst R.
+    rewrite (kleene_lines (ideclaration (itype f)) decl_rest items "").
+    + cbn [lift docb]. unfold items. rewrite decl_items_snd. unfold inodify_decl_list.
+      rewrite decls_of_nodes_vals; [now rewrite sapp_nil_r|].
+      unfold decl_vals. apply Forall_app. split.
+      * apply Forall_forall. intros v Hv. apply in_map_iff in Hv as (o & <- & _). reflexivity.
+      * apply Forall_forall. intros v Hv. apply in_flat_map in Hv as (e & _ & Hv).
+        destruct (snd (snd e)); [|destruct Hv]. destruct (lookup (fst e) E); [|destruct Hv]. destruct Hv as [<-|[]]. reflexivity.
+    + intro s. now rewrite ideclaration_ws.
+    + exact Hitems.
+    + intros t nd Hin. split.
+      * destruct (Hshape t nd Hin) as [(x & ->)|(x & ->)]; cbn; lia.
+      * intro r. destruct (Hshape t nd Hin) as [(x & ->)|(x & ->)]; cbn [append]; [right; left|right; right]; eauto.
+    + now left.
+    + reflexivity.
+    + rewrite sapp_nil_r. unfold nl. cbn [append String.length].
+      pose proof (concat_len_ge (map fst items)) as Hl. rewrite map_length in Hl.
+      assert (forall t, In t (map fst items) -> (1 <= String.length t)%nat).
+      { intros t Hin. apply in_map_iff in Hin as ([t' nd] & <- & Hin).
+        destruct (Hshape t' nd Hin) as [(x & ->)|(x & ->)]; cbn; lia. }
+      specialize (Hl H). lia.
+Qed.
